@@ -35,6 +35,11 @@ ASSUMPTIONS = [
     'bounds are datetimes, strictly increasing or strictly decreasing (ties would give empty intervals), a missing (None) bound is allowed at the '
     'unbounded end only (last upper bound / first lower bound) and a decreasing list has at least two real bounds ([None, t] has no direction and is read as increasing); brackets are the half-open pairs "(]" (default, the one in the statement) and "[)", also spelled oc / co / OC / Co '
     '- with "[]" a stamp on a bound would be covered twice by the request itself',
+    'bound LISTS (stitching and df_unslice) are written in one spelling per list, every spelling dt() reads: datetime / Timestamp / datetime64 (any position), datetime.date, "YYYYMMDD" text, '
+    'day-first "DD-MM-YYYY" text, YYYYMMDD ints (whole days) and year ints (a 1 January); all of them satisfy the oracle on the unmodified library. '
+    'CANDIDATE DEFECT excluded by construction (_form_fits): df_slice decides the direction of a bound list by sorting the bounds AS WRITTEN, before dt() reads them; day-first text sorts by day, so '
+    'ub=["28-01-2000", "03-02-2000"] is taken for a decreasing list (series and bounds are reversed: the stamp 27 Jan comes from the second series) and three such bounds raise '
+    '"needs to be either all increasing or all decreasing". Day-first lists are therefore generated only where text order and time order agree (bounds sharing month and year, or day and month)',
     'stitching with lb= lists: series i covers lb[i] .. lb[i+1] (last one unbounded above), the mirror image of the ub= form',
     'n-column stitching uses Series inputs; values are compared numerically (int inputs become float next to NaN)',
     'df_unslice: frames stitched with n >= 2 from NaN-free float series (df_unslice applies nona; n = 1 gives a Series, which DESIGN 4 lists as not claimed), '
@@ -618,8 +623,64 @@ _ST_BASE = mkdt(D0, 0)
 _ST_HALF = 43200   # rows at midnight on even p; bounds on any p (odd = noon, strictly between rows)
 
 
-def _st_stamp(p):
-    return _ST_BASE + datetime.timedelta(seconds=p * _ST_HALF)
+_ST_YEAR0 = {'years': 2000, 'future': 2095}       # yearly axes: even p = 1 January, odd p = 1 July; 'future' lies after any "now"
+
+
+def _st_stamp(p, axis='days'):
+    if axis == 'days':
+        return _ST_BASE + datetime.timedelta(seconds=p * _ST_HALF)
+    return datetime.datetime(_ST_YEAR0[axis] + p // 2, 7 if p % 2 else 1, 1)
+
+
+# spellings of one bound (an instant t); those that cannot carry a time of day need t at midnight, 'year' needs a 1 January
+BOUND_FORMS = ['dt', 'ts', 'dt64', 'date', 'text', 'dayfirst', 'int', 'year']
+
+
+def _spell(t, form):
+    import numpy as np
+    import pandas as pd
+    if t is None or form == 'dt':
+        return t
+    if form == 'ts':
+        return pd.Timestamp(t)
+    if form == 'dt64':
+        return np.datetime64(t, 'us')
+    assert (t.hour, t.minute, t.second, t.microsecond) == (0, 0, 0, 0), (t, form)
+    if form == 'date':
+        return t.date()
+    if form == 'text':
+        return t.strftime('%Y%m%d')
+    if form == 'dayfirst':
+        return t.strftime('%d-%m-%Y')        # dt() reads text day first: '03-01-2000' is 3 January (pandas would say 1 March)
+    if form == 'int':
+        return int(t.strftime('%Y%m%d'))
+    if form == 'year':
+        assert (t.month, t.day) == (1, 1), (t, form)
+        return t.year                        # dt(2001) is 1 January 2001 (pandas would say 2001 ns after the epoch)
+    raise ValueError(form)
+
+
+def _form_fits(form, stamps):
+    """can every bound of the list be written in this spelling - and does the list then still sort chronologically as written?"""
+    real = [t for t in stamps if t is not None]
+    if form in ('dt', 'ts', 'dt64'):
+        return True
+    if any((t.hour, t.minute, t.second) != (0, 0, 0) for t in real):
+        return False
+    if form == 'year':
+        return all((t.month, t.day) == (1, 1) for t in real)
+    if form == 'dayfirst':
+        # df_slice decides the direction of a bound list on the spelling as given: 'dd-mm-yyyy' text sorts by day first, which agrees with time
+        # only while day and month, or month and year, are shared (see ASSUMPTIONS: candidate defect, excluded by construction)
+        return len(set((t.month, t.year) for t in real)) <= 1 or len(set((t.day, t.month) for t in real)) <= 1
+    return True
+
+
+def _pick_form(draw, stamps, exclude=None):
+    fits = [f for f in BOUND_FORMS if f != exclude and _form_fits(f, stamps)]
+    rare = [f for f in fits if f not in ('dt', 'ts', 'dt64')]
+    rare = rare + [f for f in rare if f in ('dayfirst', 'year')] * 2         # the two spellings pandas itself would read differently
+    return draw(st.sampled_from(rare if rare and draw(st.integers(0, 3)) else fits))
 
 
 STITCH_LETTERS = ['oc', 'co', 'OC', 'Co']      # letter spellings of the two half-open pairs
@@ -646,20 +707,22 @@ def _stitch_case(draw, unslice=False, max_series=5, maxk=12):
         m = draw(st.sampled_from(([2, 3, 4] if unslice else [1, 2, 2, 3, 3, 4, 4]) + list(range(5, max_series + 1))))
     if size in ('same', 'ends'):
         m = max(m, 2)
+    axis = draw(st.sampled_from(['days', 'days', 'days', 'years', 'future', 'future']))
     if unslice:
         n = draw(st.sampled_from([2, 2, 3, m, m])) if size == 'many' else draw(st.integers(2, m))
         n = min(n, m)
-        form, order, oc, open_end, vtype, kind, names, bform = 'ub', 'inc', None, False, 'f', 'series', None, 'dt'
+        form, order, oc, open_end, vtype, kind, names = 'ub', 'inc', None, False, 'f', 'series', None
     else:
         n = max(1, min(m, draw(st.sampled_from([1, 1, 2, 2, 3, 4, 5, m]))))
         form = draw(st.sampled_from(['ub', 'ub', 'lb']))
         order = draw(st.sampled_from(['inc', 'dec']))
         oc = draw(st.sampled_from([None, None, '(]', '(]', '[)', '[)'] + STITCH_LETTERS[:2])) if draw(st.integers(0, 5)) else draw(st.sampled_from(STITCH_LETTERS))
-        open_end = draw(st.integers(1, 6)) == 6
+        open_end = draw(st.integers(1, 6)) == 6 or (axis == 'future' and draw(st.booleans()))     # data dated after any "now" behind an explicit None bound
         vtype = draw(st.sampled_from(['f', 'f', 'i']))
         kind = 'frame' if n == 1 and draw(st.integers(1, 4)) == 4 else 'series'
         names = draw(st.sampled_from(NAME_STYLES)) if kind == 'series' and draw(st.integers(1, 3)) == 3 else None
-        bform = draw(st.sampled_from(['dt', 'dt', 'dt', 'ts']))
+    spelled = draw(st.sampled_from([False, True, True]))         # bounds written in another spelling than datetime
+    midnight = spelled and draw(st.sampled_from([False, True, True]))    # ... which wants whole days (even positions) for most spellings
     dups = not unslice and n == 1 and draw(st.sampled_from([False, True]))
     series = []
     if size == 'long':
@@ -704,10 +767,24 @@ def _stitch_case(draw, unslice=False, max_series=5, maxk=12):
             ser['zero'] = sorted(draw(st.sets(st.sampled_from(ks), min_size=1, max_size=2)))      # the value 0.0: falsy, but a value
     # bounds: strictly increasing positions, mostly on row positions (even), with a liking for the first / last stamp of a series
     ends = sorted(set(2 * ser['rows'][j] for ser in series if ser['rows'] for j in (0, -1)))
-    bpos = st.one_of(st.integers(0, top).map(lambda k: 2 * k), st.integers(0, top).map(lambda k: 2 * k), st.integers(-1, 2 * top + 1), st.sampled_from(ends or [0]))
+    if midnight:
+        bpos = st.one_of(st.integers(0, top).map(lambda k: 2 * k), st.sampled_from(ends or [0]))
+    else:
+        bpos = st.one_of(st.integers(0, top).map(lambda k: 2 * k), st.integers(0, top).map(lambda k: 2 * k), st.integers(-1, 2 * top + 1), st.sampled_from(ends or [0]))
     bounds = sorted(draw(st.sets(bpos, min_size=m, max_size=m)))
+    stamps = [_st_stamp(p, axis) for p in bounds]
+    bform = _pick_form(draw, stamps) if spelled else 'dt'
     if unslice:
-        return dict(series=series, bounds=bounds, n=n)
+        # the spelling handed to df_unslice: the same as for stitching, or another spelling of the same instants
+        uform = bform if draw(st.sampled_from([True, True, False])) else _pick_form(draw, stamps, exclude=bform)
+        spec = dict(series=series, bounds=bounds, n=n)
+        if axis != 'days':
+            spec['axis'] = axis
+        if bform != 'dt':
+            spec['bform'] = bform
+        if uform != 'dt':
+            spec['uform'] = uform
+        return spec
     if dups:
         # repeated stamps (well defined for n = 1 only), preferably on a bound
         forced = ([i for i, ser in enumerate(series) if ser['rows']] or [None])[0]
@@ -729,6 +806,8 @@ def _stitch_case(draw, unslice=False, max_series=5, maxk=12):
     spec = dict(series=series, bounds=bounds, n=n, form=form, oc=oc, vtype=vtype, kind=kind)
     if names:
         spec['names'] = names
+    if axis != 'days':
+        spec['axis'] = axis
     if bform != 'dt':
         spec['bform'] = bform
     return spec
@@ -794,7 +873,7 @@ class _Model(dict):
     pairs = None
 
 
-def _st_build(series, vtype='f', kind='series', names=None):
+def _st_build(series, vtype='f', kind='series', names=None, axis='days'):
     """-> (list of pandas objects as passed to df_slice, list of models {stamp: value})"""
     import pandas as pd
     objs, models = [], []
@@ -803,7 +882,7 @@ def _st_build(series, vtype='f', kind='series', names=None):
         ks = s['rows']
         nan_at = set(s.get('nan', ()))
         zero_at = set(s.get('zero', ()))
-        stamps = [_st_stamp(2 * k) for k in ks]
+        stamps = [_st_stamp(2 * k, axis) for k in ks]
         occ, seen = [], {}
         for k in ks:                                           # 0 for the first row on a stamp, 1 for its first repetition ...
             occ.append(seen.get(k, 0))
@@ -890,7 +969,9 @@ def _check_stitched(what, res, exp, n, kind='series'):
 
 
 def _day(t):
-    """day number on the stitching axis (days since 2000-01-01, so that long series read unambiguously)"""
+    """short label of a stamp on the stitching axes: day number since 2000-01-01 (long series read unambiguously), or the date on the yearly axes"""
+    if t.year >= 2090 or (t.month, t.day) in ((1, 1), (7, 1)) and t.year > 2000:
+        return t.strftime('%Y-%m-%d')
     return '%02i' % ((t - datetime.datetime(2000, 1, 1)).days + 1)
 
 
@@ -930,11 +1011,12 @@ def _stitch_shape_classes(spec, models, real_bounds, n):
 def run_stitch(spec):
     from pyg_base import df_slice
     import pandas as pd
-    objs, models = _st_build(spec['series'], spec['vtype'], spec['kind'], spec.get('names'))
+    axis, bform = spec.get('axis', 'days'), spec.get('bform', 'dt')
+    objs, models = _st_build(spec['series'], spec['vtype'], spec['kind'], spec.get('names'), axis)
     before = [_snapshot(o) for o in objs]
-    bounds = [None if p is None else _st_stamp(p) for p in spec['bounds']]
+    bounds = [None if p is None else _st_stamp(p, axis) for p in spec['bounds']]
     form, oc, n = spec['form'], spec['oc'], spec['n']
-    given = [b if b is None or spec.get('bform', 'dt') == 'dt' else pd.Timestamp(b) for b in bounds]       # the list handed to df_slice
+    given = [_spell(b, bform) for b in bounds]       # the list handed to df_slice
     bounds_before = list(given)
     kw = {form: given}
     if oc is not None:
@@ -943,7 +1025,7 @@ def run_stitch(spec):
         kw['n'] = n
     lst = list(objs)
     what = 'df_slice(%i series with stamps %s, %s=%s%s, n=%s)' % (
-        len(objs), [_show(sorted(mdl), _day, 14) for mdl in models], form, [None if b is None else _day(b) + b.strftime('.%Hh') for b in bounds],
+        len(objs), [_show(sorted(mdl), _day, 14) for mdl in models], form, [None if b is None else _day(b) + b.strftime('.%Hh') for b in bounds] if bform == 'dt' else given,
         '' if oc is None else ', openclose=%r' % oc, n)
     res = call(what, lambda: df_slice(lst, **kw))
     exp, order = _stitch_model(models, bounds, form, oc, n)
@@ -963,8 +1045,12 @@ def run_stitch(spec):
         cls.append('letters')
     if spec.get('names'):
         cls.append('named_series')
-    if spec.get('bform', 'dt') != 'dt':
-        cls.append('timestamp_bounds')
+    cls.append('bounds=' + bform)
+    if bform != 'dt':
+        cls.append('bounds_not_datetime')
+    cls.append('axis=' + axis)
+    if any(b is None for b in bounds) and axis == 'future' and any(mdl for mdl in models):
+        cls.append('open_end_future_data')
     if on:
         cls.append('bound_on_stamp')
     if n >= 2 and gaps:
@@ -998,25 +1084,28 @@ KNOWN['c13.stitch_empty_series_inside'] = _is_known_empty_inside
 def run_unslice(spec):
     import pandas as pd
     from pyg_base import df_slice, df_unslice
-    objs, models = _st_build(spec['series'])
-    bounds = [_st_stamp(p) for p in spec['bounds']]
+    axis, bform, uform = spec.get('axis', 'days'), spec.get('bform', 'dt'), spec.get('uform', 'dt')
+    objs, models = _st_build(spec['series'], axis=axis)
+    bounds = [_st_stamp(p, axis) for p in spec['bounds']]
+    sb = [_spell(b, bform) for b in bounds]          # the bounds as spelled for stitching
     n = spec['n']
-    desc = 'series with stamps %s, ub=%s, n=%i' % ([_show(sorted(mdl), _day, 14) for mdl in models], [_day(b) + b.strftime('.%Hh') for b in bounds], n)
-    frame = call('df_slice(%s)' % desc, lambda: df_slice(list(objs), ub=list(bounds), n=n))
+    desc = 'series with stamps %s, ub=%s, n=%i' % ([_show(sorted(mdl), _day, 14) for mdl in models], [_day(b) + b.strftime('.%Hh') for b in bounds] if bform == 'dt' else sb, n)
+    frame = call('df_slice(%s)' % desc, lambda: df_slice(list(objs), ub=list(sb), n=n))
     exp, _ = _stitch_model(models, bounds, 'ub', None, n)
     _check_stitched('df_slice(%s)' % desc, frame, exp, n)
     before = _snapshot(frame)
-    ub = list(bounds)
-    what = 'df_unslice(df_slice(%s), ub)' % desc
+    ub = [_spell(b, uform) for b in bounds]          # ... and as spelled for df_unslice (the same instants)
+    ub_before = list(ub)
+    what = 'df_unslice(df_slice(%s), ub%s)' % (desc, '' if uform == bform else '=%s' % (ub,))
     res = call(what, df_unslice, frame, ub)
     check(isinstance(res, dict), '%s returned a %s, not a dict', what, type(res).__name__)
     keys = list(res.keys())
-    check(len(keys) == len(bounds) and sorted(keys) == sorted(bounds), '%s has keys %s, expected one per bound %s', what, [str(k) for k in keys], [str(b) for b in bounds])
+    check(len(keys) == len(ub) and all(any(type(k) is type(b) and k == b for k in keys) for b in ub), '%s has keys %s, expected one per bound %s', what, keys, ub)
     for k in keys:
         check(isinstance(res[k], pd.Series), '%s: value for bound %s is a %s, not a single series', what, str(k), type(res[k]).__name__)
-    check(ub == bounds, '%s modified the list of bounds', what)
+    check(len(ub) == len(ub_before) and all(a is b for a, b in zip(ub, ub_before)), '%s modified the list of bounds', what)
     check(_snapshot(frame) == before, '%s modified the frame it was given', what)
-    back = [res[b] for b in bounds]
+    back = [res[b] for b in ub]
     # "stitching those again reproduces the frame": first with the reference model of stitching ...
     rec_models = [dict(zip(_stamps(r.index), r.tolist())) for r in back]
     exp2, _ = _stitch_model(rec_models, bounds, 'ub', None, n)
@@ -1029,12 +1118,18 @@ def run_unslice(spec):
     restitch = not (EXCLUDE_KNOWN_BY_CONSTRUCTION and _unsorted_window([sorted(m) for m in rec_models], n))
     if restitch:
         what2 = 'df_slice(values of %s, ub=ub, n=%i)' % (what, n)
-        again = call(what2, lambda: df_slice(back, ub=list(bounds), n=n))
+        again = call(what2, lambda: df_slice(back, ub=list(sb), n=n))
         _check_stitched(what2 + ' [must reproduce the frame]', again, exp, n)
     allstamps = set(t for mdl in models for t in mdl)
     on = any(b in allstamps for b in bounds)
     gaps = any(len(set(mdl)) < len(allstamps) for mdl in models)
-    cls = ['n=%i' % min(n, 4), 'm=%i' % min(len(objs), 8)]
+    cls = ['n=%i' % min(n, 4), 'm=%i' % min(len(objs), 8), 'axis=' + axis, 'stitch_bounds=' + bform, 'unslice_bounds=' + uform]
+    if uform != 'dt':
+        cls.append('unslice_bounds_not_datetime')
+    if uform != bform:
+        cls.append('unslice_spelling_differs_from_stitch')
+    if uform in ('dayfirst', 'year') or bform in ('dayfirst', 'year'):
+        cls.append('spelling_pandas_reads_differently')
     cls.extend(_stitch_shape_classes(spec, models, bounds, n))
     if on:
         cls.append('bound_on_stamp')
@@ -1076,16 +1171,19 @@ SUBS = [
     Sub('stitch', _stitch_strategy, run_stitch, quick=2400, thorough=4500,
         rule='1-5 (thorough: 1-6; one case in 8: 8-12) series (dense, sparse, empty, one-point; one case in 8 with one or all series of 64-300 rows; all on the same stamps; same length, first and '
              'last stamp but different stamps in between; floats with NaN and 0.0, or ints; optionally named alike / 0..m-1 / m-1..0 / prefixes) on a daily axis, strictly monotonic bound '
-             'lists given as ub= or lb= (datetimes or Timestamps), increasing or decreasing, optionally open at the unbounded end, preferably on the first / last stamp of a series, n from 1 to the number of series, '
+             'lists given as ub= or lb= (one spelling per list: datetime, Timestamp, datetime64, date, yyyymmdd text, day-first dd-mm-yyyy text, yyyymmdd int, year int) on a daily axis in January 2000 or on yearly axes from 2000 / from 2095 (data after any "now", half of them behind an explicit None bound), increasing or decreasing, optionally open at the unbounded end, preferably on the first / last stamp of a series, n from 1 to the number of series, '
              'brackets default / "(]" / "[)" / their letter forms; oracle: per-timestamp dictionary model - stamps of interval i come from series i..i+n-1, '
              'column j = series i+j or NaN, each stamp once, increasing; inputs untouched. non-trivial = >= 2 series, >= 2 result rows and (bound on a stamp, decreasing list, or n >= 2 with gaps)',
         floor=0.3, class_floors={'dec': 0.2, 'n>=2_gaps': 0.2, 'bound_on_stamp': 0.2, 'form=lb': 0.1, 'nan_cell_from_gap': 0.1, 'several_sources': 0.2, 'duplicate_stamp_on_bound': 0.01,
                                  'm>=8_n>=2': 0.03, 'long_n>=2': 0.03, 'same_index': 0.03, 'same_ends_different_middle_n>=2': 0.008, 'named_series': 0.1, 'zero_value': 0.1,
-                                 'timestamp_bounds': 0.1, 'letters': 0.1, 'n=m': 0.1, 'one_point_series': 0.1, 'bound_on_first_stamp': 0.2, 'bound_on_last_stamp': 0.2}),
+                                 'bounds=ts': 0.02, 'bounds=dayfirst': 0.04, 'bounds=year': 0.02, 'bounds=text': 0.03, 'bounds=int': 0.015, 'bounds=date': 0.03, 'bounds_not_datetime': 0.2, 'open_end_future_data': 0.05, 'letters': 0.1, 'n=m': 0.1, 'one_point_series': 0.1, 'bound_on_first_stamp': 0.2, 'bound_on_last_stamp': 0.2}),
     Sub('unslice', lambda tier: _stitch_strategy(tier, unslice=True), run_unslice, quick=800, thorough=2500,
         rule='frames stitched by df_slice(series, ub=increasing bounds, n >= 2) from 2-5 (one case in 8: 8-12) NaN-free float series with gaps (one case in 8 with 64-300 rows; values include 0.0); '
-             'oracle: df_unslice gives a dict with one Series per bound, and '
+             'the bounds are handed to the stitching call and to df_unslice in one of 8 spellings each (the same, or two spellings of the same instants; incl. day-first text and year ints, which pandas alone would read differently from dt()); '
+             'oracle: df_unslice gives a dict with one Series per bound (keyed by the bounds as given), and '
              'stitching [res[b] for b in ub] with the same ub and n reproduces the frame (stamps, columns, cells, NaN positions); frame and bounds untouched. '
              'non-trivial = frame of >= 3 rows from series with gaps',
-        floor=0.3, class_floors={'first_column_nan': 0.1, 'bound_on_stamp': 0.2, 'm>=8': 0.04, 'long': 0.05, 'zero_value': 0.1, 'same_ends_different_middle': 0.01}),
+        floor=0.3, class_floors={'first_column_nan': 0.1, 'bound_on_stamp': 0.2, 'm>=8': 0.04, 'long': 0.05, 'zero_value': 0.1, 'same_ends_different_middle': 0.01,
+                                 'unslice_bounds=dayfirst': 0.04, 'unslice_bounds=year': 0.015, 'unslice_bounds=text': 0.03, 'unslice_bounds=int': 0.02, 'unslice_bounds=date': 0.03,
+                                 'unslice_bounds=ts': 0.015, 'unslice_bounds=dt64': 0.015, 'unslice_spelling_differs_from_stitch': 0.05, 'spelling_pandas_reads_differently': 0.08}),
 ]
